@@ -192,11 +192,22 @@ def _parent_attr(fn, node):
     return None
 
 
+def _arm_conflict(fi, a, b):
+    """a and b sit in different arms of one if statement (they never execute together)"""
+    from .rules_tracer import _guards
+    ga = {id(t): br for t, br in _guards(fi, a)}
+    gb = {id(t): br for t, br in _guards(fi, b)}
+    return any(k in gb and gb[k] != v for k, v in ga.items())
+
+
 def _reaching_names(fi, expr_nodes, upto_line):
     """names (params and locals) that may flow into the given expressions through
-    local assignments / in-place stores that textually precede `upto_line`"""
+    local assignments / in-place stores that textually precede `upto_line` and are not in another arm of an enclosing if"""
     assigns = []
+    anchor = expr_nodes[0] if expr_nodes else None
     for st in walk_no_nested(fi.node):
+        if anchor is not None and isinstance(st, (ast.Assign, ast.AugAssign, ast.For, ast.Expr)) and _arm_conflict(fi, st, anchor):
+            continue
         if isinstance(st, ast.Assign):
             for t in st.targets:
                 base = t
@@ -222,12 +233,26 @@ def _reaching_names(fi, expr_nodes, upto_line):
                 and st.value.func.attr in ('append', 'extend') and isinstance(st.value.func.value, ast.Name):
             for a in st.value.args:
                 assigns.append((st.lineno, st.value.func.value.id, a))
+    def value_names(e):
+        """names whose *values* flow into e: a name that only occurs under .shape/.size/.ndim/.dtype, numpy.shape(..), len(..),
+        numpy.zeros_like(..) / empty_like contributes its shape, not its value"""
+        out = []
+        skip = set()
+        for n in ast.walk(e):
+            if isinstance(n, ast.Attribute) and n.attr in ('shape', 'size', 'ndim', 'dtype'):
+                skip |= {id(x) for x in ast.walk(n.value)}
+            if isinstance(n, ast.Call) and (dotted_name(n.func) or '').split('.')[-1] in ('shape', 'len', 'ndim', 'size', 'zeros_like', 'empty_like', 'isscalar', 'isinstance'):
+                for a in n.args:
+                    skip |= {id(x) for x in ast.walk(a)}
+        for n in ast.walk(e):
+            if isinstance(n, ast.Name) and id(n) not in skip:
+                out.append(n.id)
+        return out
+
     seen = set()
     todo = []
     for e in expr_nodes:
-        for n in ast.walk(e):
-            if isinstance(n, ast.Name):
-                todo.append(n.id)
+        todo.extend(value_names(e))
     while todo:
         n = todo.pop()
         if n in seen:
@@ -235,9 +260,9 @@ def _reaching_names(fi, expr_nodes, upto_line):
         seen.add(n)
         for ln, tgt, val in assigns:
             if tgt == n and ln <= upto_line:
-                for x in ast.walk(val):
-                    if isinstance(x, ast.Name) and x.id not in seen:
-                        todo.append(x.id)
+                for x in value_names(val):
+                    if x not in seen:
+                        todo.append(x)
     return seen
 
 
@@ -332,6 +357,25 @@ def rule_drv_flow(ctx):
                 else:
                     r.bad(Finding('R-drv-flow', _f(fi), '%s:%s-not-in-adjoint-seed' % (name, p),
                                   'CGraph.%s: vector `%s` does not flow into the adjoint seed `%s`' % (name, p, desc), fi.file, c.lineno))
+            # the adjoint seed is given a value: a store into the coefficient array of the seed precedes the sweep
+            seed_names = {n.id for e in exprs for n in ast.walk(e) if isinstance(n, ast.Name)} | \
+                         {n.id for a in (list(c.args) + [k.value for k in c.keywords]) for n in ast.walk(a) if isinstance(n, ast.Name)}
+            holder = fi
+            hcall = c
+            inner = [h for h in [_helper_of(m, c)] if h is not None]
+            if inner:
+                holder = inner[0]
+                seed_names = {n.id for cc in ast.walk(holder.node) if isinstance(cc, ast.Call) and isinstance(cc.func, ast.Attribute) and cc.func.attr == 'pullback'
+                              for a in cc.args for n in ast.walk(a) if isinstance(n, ast.Name)}
+            stores = [st for st in walk_no_nested(holder.node) if isinstance(st, (ast.Assign, ast.AugAssign))
+                      and any(isinstance(t, ast.Subscript) and any(isinstance(b, ast.Name) and b.id in seed_names for b in ast.walk(t.value))
+                              for t in (st.targets if isinstance(st, ast.Assign) else [st.target]))]
+            direct = [n_ for n_ in seed_names if n_ in fi.params]
+            if stores or (direct and holder is fi):
+                r.ok(construct='%s:seed-set@%d' % (name, c.lineno), sample='CGraph.%s: the adjoint seed is written by `%s`' % (name, norm(stores[0])[:60] if stores else direct[0]))
+            else:
+                r.bad(Finding('R-drv-flow', _f(fi), '%s:seed-unset' % name, 'CGraph.%s: the adjoint seed passed to the reverse sweep is allocated but never '
+                                                                            'given a value (all-zero seed: every derivative comes out zero)' % name, fi.file, c.lineno))
             # seed freshness via E1
             if roots is not None:
                 stale = [x for x in roots if x[0] == 'p' and x[1] == 'self']
